@@ -138,6 +138,8 @@ def run(P, R, tier):
     cachereset_rule(P, R)
     prfallback_rule(P, R)
     gasdup_rule(P, R)
+    savedvolume_rule(P, R)
+    absentgas_rule(P, R)
     quick_rule(P, R)
     prtemp_rule(P, R)
     vmowner_rule(P, R)
@@ -703,3 +705,88 @@ def gasdup_rule(P, R):
         else:
             R.violation(RULE, inst, "read_gas_phase merges repeated gas lines under the name as typed: `CO2(g)` and `co2(g)` stay two components of one phase, whose moles and "
                         "partial pressure are counted twice (the partial pressures no longer sum to the total)", file=f["file"], line=c[1], function=f["q"])
+
+
+def savedvolume_rule(P, R):
+    """"reported total pressure, volume, temperature and moles satisfy the equation of state" - also in the gas phase that is SAVEd.  For a
+    fixed-pressure gas phase xgas_save stores total_moles = n (the solved gas unknown) and volume = n * V_m, with V_m = R T / P for ideal
+    gases and the Peng-Robinson molar volume otherwise.  Every Set_volume in that block is checked symbolically: the stored volume divided
+    by the stored total moles must be exactly one of the two molar volumes (a volume built from the moles of the copy being saved - the
+    amounts at the START of the step - does not belong to the stored moles and pressure)."""
+    RULE = "C19.savedvolume"
+    R.rule(RULE, "xgas_save, fixed pressure: stored volume = stored total moles * molar volume (R T / P or the Peng-Robinson V_m)", minimum=2)
+    f = P.one("Phreeqc::xgas_save")
+
+    def sym(n):
+        return "".join(T.text(n, -40).split())
+
+    def rat(n):
+        return RF.from_tree(n, sym, opaque_calls=("Get_v_m", "Get_total_p", "Calc_total_moles", "Get_volume", "Get_total_moles"))
+    blocks = [x for x in T.walk(f["body"]) if x[0] == "If" and any(T.callee_name(c) == "Set_total_moles" for c in T.calls(x[3]))]
+    if len(blocks) != 1:
+        R.anchor_missing(RULE, "xgas_save: the fixed-pressure block (Set_total_moles) was found %d times" % len(blocks))
+        return
+    blk = blocks[0]
+    try:
+        nmol = [rat(c[4][0]) for c in T.calls(blk[3]) if T.callee_name(c) == "Set_total_moles"][0]
+        vols = [(c[1], rat(c[4][0])) for c in T.calls(blk[3]) if T.callee_name(c) == "Set_volume"]
+    except RF.NotRational as e:
+        R.anchor_missing(RULE, "xgas_save: stored moles / volume not rational (%s)" % e)
+        return
+    for line, v in vols:
+        q = v / nmol
+        inst = "volume@%d" % (line - f["line"])
+        vsyms = v.symbols()
+        is_vm = any("Get_v_m" in s_ and v.same(nmol * RF.Rat.sym(s_)) for s_ in vsyms)
+        is_ideal = False
+        tks = [s_ for s_ in vsyms if "tk_x" in s_]
+        ps = [s_ for s_ in vsyms if "Get_total_p" in s_]
+        if tks and ps:
+            r = v * RF.Rat.sym(ps[0]) / (nmol * RF.Rat.sym(tks[0]))
+            c = r.at_ones()
+            is_ideal = c is not None and r.same(RF.Rat.const(c))        # a pure constant: the gas constant
+        if is_vm or is_ideal:
+            R.ok(RULE, inst, "volume / total moles = %r" % q)
+        else:
+            R.violation(RULE, inst, "the volume stored with a fixed-pressure gas phase is %r while the stored total moles are %r: their ratio %r is neither R T / P nor the "
+                        "Peng-Robinson molar volume - the saved gas phase does not satisfy the equation of state" % (v, nmol, q), file=f["file"], line=line, function=f["q"])
+    if len(vols) < 2:
+        R.anchor_missing(RULE, "xgas_save: only %d Set_volume in the fixed-pressure block (ideal and Peng-Robinson expected)" % len(vols))
+
+
+def absentgas_rule(P, R):
+    """"partial pressures are mole-fraction shares of the total and sum to it": the pressure equation of a fixed-pressure gas phase sums
+    phase::p_soln_x of EVERY listed gas (build_gas_phase), and the phase records live for the whole instance.  calc_gas_pressures gives
+    each gas that is in the model its partial pressure and moles; for a listed gas that is NOT in the model (its element is absent) the
+    else-branch must reset every member the then-branch computes - otherwise the value of an earlier calculation stays in the sum."""
+    RULE = "C19.absentgas"
+    R.rule(RULE, "calc_gas_pressures: a listed gas that is not in the model gets every per-calculation member reset that a gas in the model gets computed", minimum=1)
+    f = P.one("Phreeqc::calc_gas_pressures")
+
+    def members(n):
+        out = set()
+        for t, how, line, w in T.writes(n):
+            t2 = T.strip_casts(t)
+            if T.is_node(t2) and t2[0] == "Member" and t2[2].startswith("phase::") and how in ("=", "op="):
+                out.add(t2[2].split("::")[-1])
+        return out
+    n = 0
+    for x in T.walk(f["body"]):
+        if x[0] != "If" or not T.is_node(x[4]):
+            continue
+        c = T.strip_casts(x[2])
+        if not (T.is_node(c) and c[0] == "Bin" and c[2] == "==" and any(y[0] == "Member" and y[2] == "phase::in" for y in T.walk(c))):
+            continue
+        th, el = members(x[3]), members(x[4])
+        if not th or not el:
+            continue
+        n += 1
+        inst = "in-model@%d" % (x[1] - f["line"])
+        missing = sorted(th - el)
+        if not missing:
+            R.ok(RULE, inst, "computed {%s}, reset {%s}" % (", ".join(sorted(th)), ", ".join(sorted(el))))
+        else:
+            R.violation(RULE, inst, "a gas in the model gets %s computed, a listed gas that is not in the model keeps its old %s: the value of an earlier calculation stays in the "
+                        "sum of partial pressures of the gas phase" % (", ".join(sorted(th)), ", ".join(missing)), file=f["file"], line=x[4][1], function=f["q"])
+    if n < 1:
+        R.anchor_missing(RULE, "calc_gas_pressures: the in-model / not-in-model branch pair was not found")
